@@ -25,6 +25,7 @@ fn scval(env: &soroban_sdk::Env, v: &Val) -> Option<xdr::ScVal> {
 impl OperatorsBinder {
     pub fn new(inst: &J, init: &J) -> OperatorsBinder {
         let mut cx = Ctx::new();
+        cx.ledger_step = 5;
         let env = cx.env.clone();
         let owner = cx.addr(&jstr(init, "owner"));
         let ops = env.register(axelar_operators::AxelarOperators, (owner,));
